@@ -17,6 +17,8 @@ THEOREMS = [
     "SleapVerif.C17.toposort_fuel_suffices",
     "SleapVerif.C17.toposort_sound_nodup",
     "SleapVerif.C17.isArbo_implies_arbo",
+    "SleapVerif.C17.toposort_relabel",
+    "SleapVerif.C17.bfs_relabel",
     "SleapVerif.C17.child_before_parent_drops_parent",
     "SleapVerif.C17.parent_first_needed",
 ]
